@@ -29,6 +29,8 @@ const Ports Leaf::ports = {
     rEnabledCondition(is_on, obj->pt),
     rSelf(Leaf),
     rDummy(dummy),
+    {"cross:", rDoc("change callback that cross-broadcasts a sibling"), NULL,
+        rBOIL_BEGIN rCrossBroadcast(loc, pf) rBOIL_END},
 };
 #undef rObject
 
